@@ -717,6 +717,7 @@ func runC14(c *kc.Ctx) {
 			}
 		}
 	}
+	c14CrossTree(t, envs)
 	c14Deniable(t, envs)
 	c14Rushing(t, envs)
 	t.settle()
